@@ -75,6 +75,18 @@ func readerParkedOnLock() string {
 // a mutex in two dumps; (2) every byte of every response was read, the read
 // loop is back in Read waiting for more, and a caller still has not returned.
 func FragmentTrial(n int, seed int64, blockedWriter, reopen, pokeOpen bool) *FragResult {
+	return fragmentTrial(n, seed, blockedWriter, reopen, pokeOpen, false)
+}
+
+// FragmentTrialBusyReopen is FragmentTrial on a transport that the application
+// closed and opened again while the read loop of the earlier session was busy
+// delivering a frame (held at the yield point send.begin, i.e. between two
+// reads); the loop is released after the reopen.
+func FragmentTrialBusyReopen(n int, seed int64) *FragResult {
+	return fragmentTrial(n, seed, false, false, false, true)
+}
+
+func fragmentTrial(n int, seed int64, blockedWriter, reopen, pokeOpen, busyReopen bool) *FragResult {
 	res := &FragResult{Callers: n, BlockedWriter: blockedWriter, Reopened: reopen}
 	rng := rand.New(rand.NewSource(seed))
 	a := NewAdapterLeg()
@@ -202,6 +214,43 @@ func FragmentTrial(n int, seed int64, blockedWriter, reopen, pokeOpen bool) *Fra
 		closedC = tr.Closed()
 		res.PreludeCut = cut
 	}
+	if busyReopen {
+		pc, pctx := newCaller(-1)
+		ctl := NewController("send.begin")
+		ctl.Own(pc.opid)
+		defer ctl.Disown(pc.opid)
+		go call(pc, pctx)
+		select {
+		case <-seen:
+		case <-time.After(30 * time.Second):
+			res.Inconclusive = "prelude request did not reach the wire"
+			return res
+		}
+		a.St.Feed(FrameFor(pc.opid, pc.tok))
+		if !ctl.Await(HookEvent{"send.begin", pc.opid}, 1, muxWatchdog) {
+			res.Inconclusive = "the read loop did not reach the delivery of the prelude response"
+			return res
+		}
+		// the read loop of session 1 is between two reads; the application
+		// cycles the transport
+		if err := tr.Close(); err != nil {
+			res.Inconclusive = "close: " + err.Error()
+			return res
+		}
+		if err := tr.Open(); err != nil {
+			res.Inconclusive = "reopen: " + err.Error()
+			return res
+		}
+		closedC = tr.Closed()
+		ctl.Release(HookEvent{"send.begin", pc.opid})
+		select {
+		case <-pc.done:
+		case <-time.After(30 * time.Second):
+			res.Inconclusive = "the prelude request did not return after its delivery was released"
+			return res
+		}
+		res.Reopened = true
+	}
 	cs := make([]*caller, n)
 	var start sync.WaitGroup
 	start.Add(1)
@@ -303,7 +352,7 @@ func FragmentTrial(n int, seed int64, blockedWriter, reopen, pokeOpen bool) *Fra
 			}
 		}
 	}
-	res.Shape = fmt.Sprintf("n=%d mode=%d blocked=%v reopened=%v open-poked=%v", n, mode, blockedWriter, reopen, pokeOpen)
+	res.Shape = fmt.Sprintf("n=%d mode=%d blocked=%v reopened=%v open-poked=%v busy-reopen=%v", n, mode, blockedWriter, reopen, pokeOpen, busyReopen)
 	witness := func(extra string) interface{} {
 		var cl []int
 		for c := range cuts {
